@@ -12,6 +12,7 @@ def run(F, G, tier, seed):
     positions.run_locord(chk, G)
     positions.run_idrange(chk, G)
     positions.run_newline(chk, L)
+    positions.run_eofloc(chk, L)
     positions.run_setpath(chk, F, CG)
     positions.run_xpath(chk, F, CG)
     positions.run_tcpos(chk, F)
